@@ -18,11 +18,16 @@ import (
 
 type c20driver struct {
 	id       string
+	files    func() []File // optional: the configuration spread over several files
 	cfg      func() *Cfg
 	threads  [][]ProbeOp
 	threads2 [][]ProbeOp // thorough: two operations per thread
 	contexts []string
 }
+
+// environment of the probes: some of the variables the drivers read are set, some are not
+var c20env = []string{"C20_A=value-a", "C20_C=7", "C20_D=value-d", "C20_F=value-f", "C20_DSN=dsn-from-env"}
+var c20modelEnv = map[string]string{"C20_A": "value-a", "C20_C": "7", "C20_D": "value-d", "C20_F": "value-f", "C20_DSN": "dsn-from-env"}
 
 func c20drivers() []c20driver {
 	base := func(f func(c *Cfg)) func() *Cfg {
@@ -60,6 +65,20 @@ func c20drivers() []c20driver {
 			c.Decorators = []Decorator{{Tag: "http", Decorator: "pk2.Dec1", Args: []any{"@logger"}}}
 		}), threads: [][]ProbeOp{{op("get", "handler")}, {op("get", "logger")}, {op("get", "handler")}},
 			threads2: [][]ProbeOp{{op("get", "handler"), op("get", "logger")}, {op("get", "logger"), op("get", "handler")}, {op("get", "handler"), op("get", "handler")}}},
+		{id: "env-chunks", cfg: base(func(c *Cfg) {
+			c.Params = []Param{{"e1", `%env("C20_A", "a")%`}, {"e2", `%env("C20_B", "b")%`}, {"e3", `%envInt("C20_C", 3)%`}, {"e4", `%env("C20_D", "d")%-%envInt("C20_E", 5)%`}}
+			c.Services = []Service{{Name: "s", Constructor: P("pk.New"), Args: []any{`%env("C20_F", "f")%`, "%e4%"}, Scope: P("non_shared")}}
+		}), threads: [][]ProbeOp{{op("param", "e4")}, {op("param", "e4")}, {op("get", "s")}},
+			threads2: [][]ProbeOp{{op("param", "e1"), op("param", "e3")}, {op("param", "e2"), op("param", "e4")}, {op("get", "s"), op("param", "e1")}}},
+		{id: "contextual-split-over-files", contexts: []string{"A", "B"}, files: func() []File {
+			a := &Cfg{Meta: stdMeta(), Services: []Service{{Name: "session", Constructor: P("pk.New1"), Scope: P("contextual")}, {Name: "shared", Constructor: P("pk.New2")}}}
+			b := &Cfg{Services: []Service{{Name: "session", Tags: []Tag{{Name: "tg"}}, Getter: P("FetchSession")}, {Name: "user", Constructor: P("pk.New3"), Args: []any{"@session", "@shared"}}}}
+			return []File{{"a.yaml", a.YAML()}, {"b.yaml", b.YAML()}}
+		}, cfg: base(func(c *Cfg) {
+			c.Services = []Service{{Name: "session", Constructor: P("pk.New1"), Scope: P("contextual"), Tags: []Tag{{Name: "tg"}}, Getter: P("FetchSession")}, {Name: "shared", Constructor: P("pk.New2")}, {Name: "user", Constructor: P("pk.New3"), Args: []any{"@session", "@shared"}}}
+		}),
+			threads:  [][]ProbeOp{{opCtx("getctx", "A", "session")}, {opCtx("getctx", "B", "session")}, {opCtx("getctx", "A", "user")}},
+			threads2: [][]ProbeOp{{opCtx("getctx", "A", "session"), opCtx("getctx", "B", "user")}, {opCtx("getctx", "B", "session"), ProbeOp{Op: "taggedctx", Ctx: "A", Tag: "tg"}}, {opCtx("getterctx", "A", "FetchSessionInContext"), opCtx("getctx", "B", "session")}}},
 		{id: "typed-getters", cfg: base(func(c *Cfg) {
 			c.Params = []Param{{"dsn", `%env("C20_DSN", "default-dsn")%`}}
 			c.Services = []Service{{Name: "db", Constructor: P("pk.New"), Args: []any{"%dsn%"}, Getter: P("FetchDb"), Type: P("*pk.Obj"), MustGetter: P(true)}}
@@ -72,7 +91,7 @@ func init() {
 	Register(&Check{
 		ID:    "C20",
 		Level: "model_checking",
-		Rule: "8 drivers (shared chain with a multi-chunk parameter, %fn()% parameter used by two parameters, multi-chunk concatenation, contextual + unset-resolving-to-contextual under two attached contexts, non_shared + shared, tagged pair + consumer, decorated service, typed getters) x 3 threads x 1 operation on the same names: every interleaving with <= 2 preemptions (quick) / <= 3 preemptions and 2 operations per thread within a time budget (thorough); scheduling points before every Mutex.Lock, RWMutex.RLock/Lock and Once.Do of the runtime copy and before every statement of the generated code; " +
+		Rule: "10 drivers (shared chain with a multi-chunk parameter, %fn()% parameter used by two parameters, multi-chunk concatenation, contextual + unset-resolving-to-contextual under two attached contexts, non_shared + shared, tagged pair + consumer, decorated service, typed getters, several env()/envInt() chunks, a contextual service whose definition is spread over two files) x 3 threads x 1 operation on the same names: every interleaving with <= 2 preemptions (quick) / <= 3 preemptions and 2 operations per thread within a time budget (thorough); scheduling points before every Mutex.Lock, RWMutex.RLock/Lock and Once.Do of the runtime copy and before every statement of the generated code; " +
 			"per execution: no deadlock, every operation returns exactly what the sequential run returns (canonical object graphs incl. identity across threads), construction / function-call counters equal the sequential run's (each shared service and each parameter built once), contextual instances of distinct contexts distinct. Separate free-running pass of the same bodies with the real sync package under -race (16 goroutines x 200 rounds per driver). states = executions (complete schedules), transitions = scheduling decisions",
 		Assumptions: []string{
 			"the scheduler controls sync.Mutex, sync.RWMutex (writer preference) and sync.Once of the runtime's container package and every statement boundary of generated code; unsynchronised accesses below that granularity are left to the -race pass",
@@ -98,6 +117,9 @@ func init() {
 						w.Case(id, func(c *C) {
 							cfg := d.cfg()
 							files := []File{{"c.yaml", cfg.YAML()}}
+							if d.files != nil {
+								files = d.files()
+							}
 							br := w.Build(files)
 							fm := FilesMap(files)
 							if !br.OK() {
@@ -117,7 +139,7 @@ func init() {
 								spec.Threads = d.threads2
 								spec.Bound = 2
 							}
-							rep, err := RunSched(bin, spec, time.Duration(spec.BudgetSec+60)*time.Second)
+							rep, err := RunSched(bin, spec, time.Duration(spec.BudgetSec+60)*time.Second, c20env...)
 							if err != nil {
 								c.Violation("sched-probe-failed", "controlled probe failed: "+err.Error(), fm, nil)
 								return
@@ -141,7 +163,9 @@ func init() {
 								c.Count("capped_drivers")
 							}
 							if rep.WithBlocking == 0 {
-								c.Violation("vacuous-driver:"+d.id, "no execution of this driver ever blocked on a lock: the threads do not collide", fm, nil)
+								// not a property violation: a vacuity guard for the reader of the evidence
+								w.Note("driver " + id + ": no execution ever blocked on a lock (the threads do not collide)")
+								c.Count("drivers_without_blocking")
 							}
 							for _, v := range rep.Violations {
 								c.Violation(v.Kind+":"+d.id, fmt.Sprintf("driver %s, schedule %v (choices at branching points): %s", d.id, v.Schedule, v.Msg), fm, map[string]any{"schedule": v.Schedule, "threads": spec.Threads})
@@ -153,12 +177,46 @@ func init() {
 					}
 				}
 			}
+			// the sequential composition of every driver's threads against the reference model (the explorer compares
+			// concurrent executions with the sequential run of the same build; this pins the sequential run itself)
+			w.Case("sequential-semantics", func(c *C) {
+				var cases []*BCase
+				for _, d := range drivers {
+					for ti, th := range [][][]ProbeOp{d.threads, d.threads2} {
+						var ops []ProbeOp
+						for _, t := range th {
+							ops = append(ops, t...)
+						}
+						ops = append(ops, op("counters", ""))
+						bc := &BCase{ID: fmt.Sprintf("sequential/%s/%d", d.id, ti), Cfg: d.cfg(), Sessions: []BSession{{Ops: ops}}}
+						if d.files != nil {
+							bc.Files = d.files()
+						}
+						cases = append(cases, bc)
+					}
+				}
+				for _, kv := range c20env {
+					p := strings.SplitN(kv, "=", 2)
+					os.Setenv(p[0], p[1])
+				}
+				outs, err := w.RunBehaviour(cases)
+				for _, o := range outs {
+					for si := range o.Case.Sessions {
+						o.Case.Sessions[si].Env = c20modelEnv
+					}
+				}
+				behaviourOracle(c, outs, err)
+				c.Distinct("nontrivial", c.ID)
+			})
 			// free-running race pass
 			for _, d := range drivers {
 				d := d
 				w.Case("race/"+d.id, func(c *C) {
 					cfg := d.cfg()
 					files := []File{{"c.yaml", cfg.YAML()}}
+					if d.files != nil {
+						files = d.files()
+					}
 					br := w.Build(files)
 					if !br.OK() {
 						return
@@ -172,7 +230,7 @@ func init() {
 					in, _ := json.Marshal(spec)
 					cmd := exec.Command(bin)
 					cmd.Stdin = bytes.NewReader(in)
-					cmd.Env = append(os.Environ(), "GORACE=halt_on_error=0 exitcode=66", "GOMAXPROCS=8")
+					cmd.Env = append(append(os.Environ(), "GORACE=halt_on_error=0 exitcode=66", "GOMAXPROCS=8"), c20env...)
 					var stdout, stderr bytes.Buffer
 					cmd.Stdout, cmd.Stderr = &stdout, &stderr
 					err = cmd.Run()
